@@ -485,8 +485,21 @@ where
                     read_preprocessor_cache_entry(storage.as_ref(), preprocessor_key).await
                 {
                     let mut updated = false;
+                    // The entry was read from a file: only a key of the form `hash_key`
+                    // produces is looked up (it is used to build a path below the cache
+                    // directory). Anything else is a miss; the entry is rewritten below.
                     let hit = preprocessor_cache_entry
-                        .lookup_result_digest(preprocessor_cache_mode_config, &mut updated);
+                        .lookup_result_digest(preprocessor_cache_mode_config, &mut updated)
+                        .filter(|key| {
+                            let well_formed = is_result_key(key);
+                            if !well_formed {
+                                warn!(
+                                    "Ignoring preprocessor cache entry {}: malformed result key {:?}",
+                                    preprocessor_key, key
+                                );
+                            }
+                            well_formed
+                        });
 
                     let mut update_failed = false;
                     if updated {
@@ -699,6 +712,12 @@ const PRAGMA_GCC_PCH_PREPROCESS: &[u8] = b"pragma GCC pch_preprocess";
 const HASH_31_COMMAND_LINE_NEWLINE: &[u8] = b"# 31 \"<command-line>\"\n";
 const HASH_32_COMMAND_LINE_2_NEWLINE: &[u8] = b"# 32 \"<command-line>\" 2\n";
 const INCBIN_DIRECTIVE: &[u8] = b".incbin";
+
+/// Whether `key` has the form of the keys `hash_key` produces: the lower-case
+/// hexadecimal form of a 256-bit digest.
+fn is_result_key(key: &str) -> bool {
+    key.len() == 64 && key.bytes().all(|b| matches!(b, b'0'..=b'9' | b'a'..=b'f'))
+}
 
 /// Fetch and decode the preprocessor cache entry stored under `key`.
 ///
